@@ -30,9 +30,13 @@ size_t GF;                       /* ghost witness index of the first-occurrence 
 #define IORA_CH_SP ((char)32)
 #define IORA_CH_HT ((char)9)
 /* by-value predicates over a view (usable in contracts and loop invariants) */
-#define IORA_SV_CRLF_AT(s_, i_) ((s_).p[(i_)] == IORA_CH_CR && (s_).p[(i_) + 1] == IORA_CH_LF)
-#define IORA_SV_CRLF2_AT(s_, i_) ((s_).p[(i_)] == IORA_CH_CR && (s_).p[(i_) + 1] == IORA_CH_LF && (s_).p[(i_) + 2] == IORA_CH_CR && (s_).p[(i_) + 3] == IORA_CH_LF)
-#define IORA_IS_OWS(c_) ((c_) == IORA_CH_SP || (c_) == IORA_CH_HT)
+/* NOTE (measured, CBMC 6.11): several dereferences chained with the short-circuit `&&`/`||` inside ONE contract or
+ * invariant expression nest conditionals and multiply the formula (find("\r\n\r\n") contract: 1.77 M clauses with `&&`,
+ * 0.19 M with `&`). Byte predicates therefore combine their reads with the non-short-circuit `&` / `|`; range guards
+ * stay in front with `==>` / `&&`. */
+#define IORA_SV_CRLF_AT(s_, i_) (((s_).p[(i_)] == IORA_CH_CR) & ((s_).p[(i_) + 1] == IORA_CH_LF))
+#define IORA_SV_CRLF2_AT(s_, i_) (((s_).p[(i_)] == IORA_CH_CR) & ((s_).p[(i_) + 1] == IORA_CH_LF) & ((s_).p[(i_) + 2] == IORA_CH_CR) & ((s_).p[(i_) + 3] == IORA_CH_LF))
+#define IORA_IS_OWS(c_) (((c_) == IORA_CH_SP) | ((c_) == IORA_CH_HT))
 
 /* ---- slicing (inline) ---- */
 static inline iora_sv iora_sv_substr(const iora_sv *s, size_t pos, size_t len)
@@ -140,7 +144,8 @@ static inline size_t iora_sv_find_last_not_ows(const iora_sv *s, size_t pos) { r
 size_t iora_sv_find_ch(const iora_sv *s, char c, size_t pos)
   __CPROVER_requires(IORA_TRUE)
   __CPROVER_assigns()
-  __CPROVER_ensures(IORA_FIND_R == IORA_NPOS || (pos <= IORA_FIND_R && IORA_FIND_R < s->n && s->p[IORA_FIND_R] == c))
+  __CPROVER_ensures(IORA_FIND_R == IORA_NPOS || (pos <= IORA_FIND_R && IORA_FIND_R < s->n))
+  __CPROVER_ensures(IORA_FIND_R != IORA_NPOS ==> s->p[IORA_FIND_R] == c)
   __CPROVER_ensures(IORA_FIRST_CH(IORA_FIND_TERM_1))
   __CPROVER_ensures(IORA_FIRST_CH(IORA_FIND_TERM_2));
 
@@ -148,7 +153,8 @@ size_t iora_sv_find_ch(const iora_sv *s, char c, size_t pos)
 size_t iora_sv_find_crlf(const iora_sv *s, size_t pos)
   __CPROVER_requires(IORA_TRUE)
   __CPROVER_assigns()
-  __CPROVER_ensures(IORA_FIND_R == IORA_NPOS || (pos <= IORA_FIND_R && IORA_FIND_R < s->n && s->n - IORA_FIND_R >= 2 && IORA_SV_CRLF_AT(*s, IORA_FIND_R)))
+  __CPROVER_ensures(IORA_FIND_R == IORA_NPOS || (pos <= IORA_FIND_R && IORA_FIND_R < s->n && s->n - IORA_FIND_R >= 2))
+  __CPROVER_ensures(IORA_FIND_R != IORA_NPOS ==> IORA_SV_CRLF_AT(*s, IORA_FIND_R))
   __CPROVER_ensures(IORA_FIRST_CRLF(IORA_FIND_TERM_1))
   __CPROVER_ensures(IORA_FIRST_CRLF(IORA_FIND_TERM_2));
 
@@ -156,7 +162,8 @@ size_t iora_sv_find_crlf(const iora_sv *s, size_t pos)
 size_t iora_sv_find_crlf2(const iora_sv *s, size_t pos)
   __CPROVER_requires(IORA_TRUE)
   __CPROVER_assigns()
-  __CPROVER_ensures(IORA_FIND_R == IORA_NPOS || (pos <= IORA_FIND_R && IORA_FIND_R < s->n && s->n - IORA_FIND_R >= 4 && IORA_SV_CRLF2_AT(*s, IORA_FIND_R)))
+  __CPROVER_ensures(IORA_FIND_R == IORA_NPOS || (pos <= IORA_FIND_R && IORA_FIND_R < s->n && s->n - IORA_FIND_R >= 4))
+  __CPROVER_ensures(IORA_FIND_R != IORA_NPOS ==> IORA_SV_CRLF2_AT(*s, IORA_FIND_R))
   __CPROVER_ensures(IORA_FIRST_CRLF2(IORA_FIND_TERM_1))
   __CPROVER_ensures(IORA_FIRST_CRLF2(IORA_FIND_TERM_2));
 
@@ -164,7 +171,8 @@ size_t iora_sv_find_crlf2(const iora_sv *s, size_t pos)
 size_t iora_sv_find_first_not_ows(const iora_sv *s, size_t pos)
   __CPROVER_requires(IORA_TRUE)
   __CPROVER_assigns()
-  __CPROVER_ensures(IORA_FIND_R == IORA_NPOS || (pos <= IORA_FIND_R && IORA_FIND_R < s->n && !IORA_IS_OWS(s->p[IORA_FIND_R])))
+  __CPROVER_ensures(IORA_FIND_R == IORA_NPOS || (pos <= IORA_FIND_R && IORA_FIND_R < s->n))
+  __CPROVER_ensures(IORA_FIND_R != IORA_NPOS ==> !IORA_IS_OWS(s->p[IORA_FIND_R]))
   __CPROVER_ensures(IORA_FIRST_NOT_OWS(IORA_FIND_TERM_1))
   __CPROVER_ensures(IORA_FIRST_NOT_OWS(IORA_FIND_TERM_2));
 
@@ -172,7 +180,8 @@ size_t iora_sv_find_first_not_ows(const iora_sv *s, size_t pos)
 size_t iora_sv_find_last_not_ows(const iora_sv *s, size_t pos)
   __CPROVER_requires(IORA_TRUE)
   __CPROVER_assigns()
-  __CPROVER_ensures(IORA_FIND_R == IORA_NPOS || (IORA_FIND_R < s->n && IORA_FIND_R <= pos && !IORA_IS_OWS(s->p[IORA_FIND_R])))
+  __CPROVER_ensures(IORA_FIND_R == IORA_NPOS || (IORA_FIND_R < s->n && IORA_FIND_R <= pos))
+  __CPROVER_ensures(IORA_FIND_R != IORA_NPOS ==> !IORA_IS_OWS(s->p[IORA_FIND_R]))
   __CPROVER_ensures(IORA_LAST_NOT_OWS(IORA_FIND_TERM_1))
   __CPROVER_ensures(IORA_LAST_NOT_OWS(IORA_FIND_TERM_2));
 #endif
